@@ -14,6 +14,14 @@ arguments that occur*, exactly what it needs (`law 1 = 1`, `law (a*b) = law a * 
 otherwise is the subject of the saturation theorems of §4, which include the two ways in which
 `scale` does **not** preserve the zero-risk conventions of `calculate` (`Decimal::MIN` turns into
 `Decimal::MAX`; `Decimal::MAX` shrinks to a finite number).
+
+§6 speaks about the total model function `sheetOf`; §7 about `sheetChecked`, the function with the
+code's panic explicit (zero cost of investment: `sheet_panics_iff`), which is what the drivers run —
+"what the code reports" is `sheet_checked_refines`. §8 separates the laws of the ideal root
+(`scale_scale`, `scale_round_trip`, `sharpe_scaling_is_iid_consistent`) from what holds for the root
+that is computed (error bound, counterexamples). §9 is the Calmar counterpart of
+`sheet_sortino_very_bad_is_max`: a history that never shows a profit has "no drawdown", and its Calmar
+ratio is reported as `Decimal::MAX`.
 -/
 namespace BarterModel.Props.C16M
 open BarterModel BarterModel.Metrics
@@ -71,7 +79,10 @@ theorem periods_daily_annual :
 
 /-! ## 2. `calculate` -/
 
-/-- Sharpe: `(mean − rf) / σ`, and `Decimal::MAX` when `σ = 0`; the interval is carried along. -/
+/-- Sharpe: `(mean − rf) / σ`, and `Decimal::MAX` when `σ = 0`; the interval is carried along.
+(Bookkeeping: `specSharpe` / `specSortino` / `specCalmar` are the same case distinctions as the code,
+written on extended values — these three theorems are definitional unfoldings, the content is in the
+sign / monotonicity / excess-only theorems below and in what `scale` does to the conventions, §4.) -/
 theorem sharpe_calculate_refines (rf m s : Rat) (p : Interval) :
     (SharpeRatio.calculate rf m s p).value = (specSharpe rf m s).toDecimal ∧
     (SharpeRatio.calculate rf m s p).interval = p :=
@@ -267,9 +278,12 @@ theorem scale_same_interval (law : Rat → Rat) (h1 : law 1 = 1) (m : Metric)
     rw [scaleWith_value, periods_self hs, h1]; exact scaleVal_one hv
   cases m; simp_all [Metric.scaleWith]
 
-/-- **Scale then scale = scale.** Going `A → B → C` is going `A → C`, provided the law is
-multiplicative at the two factors involved and the intermediate value fits (`A`, `B` of at least a
-second). Saturation of the final product is the same on both sides, so nothing is assumed about it. -/
+/-- **Scale then scale = scale** — a law of the IDEAL root (and of the identity). Going `A → B → C`
+is going `A → C`, provided the law is multiplicative at the two factors involved and the intermediate
+value fits (`A`, `B` of at least a second). Saturation of the final product is the same on both sides,
+so nothing is assumed about it. `hmul` FAILS for `Decimal::sqrt` / the drivers' `sqrtApprox` except at
+perfect squares (`sqrtApprox_not_multiplicative_D_A252`); what two calls compute for an arbitrary law
+is `scale_scale_value` (§8). -/
 theorem scale_scale (law : Rat → Rat) (v : Rat) {a b : Interval} (c : Interval)
     (ha : a.secs ≠ 0) (hb : b.secs ≠ 0)
     (hmul : law (periods a b * periods b c) = law (periods a b) * law (periods b c))
@@ -282,8 +296,11 @@ theorem scale_scale (law : Rat → Rat) (v : Rat) {a b : Interval} (c : Interval
     rw [scaleVal_assoc _ hfit, ← hmul, periods_mul c ha hb]
   simp_all [Metric.scaleWith]
 
-/-- **Round trip.** `A → B → A` is the identity (law multiplicative at the two reciprocal factors,
-`law 1 = 1`, intermediate value fits). -/
+/-- **Round trip** — a law of the IDEAL root (and of the identity). `A → B → A` is the identity (law
+multiplicative at the two reciprocal factors, `law 1 = 1`, intermediate value fits). With the root
+that is actually computed the round trip is NOT the identity (`round_trip_deviates_witness`); the
+version for approximate roots, with the error bound, is `scale_round_trip_error` /
+`sqrtApprox_round_trip_error` (§8). -/
 theorem scale_round_trip (law : Rat → Rat) (h1 : law 1 = 1) (v : Rat) {a b : Interval}
     (ha : a.secs ≠ 0) (hb : b.secs ≠ 0)
     (hmul : law (periods a b * periods b a) = law (periods a b) * law (periods b a))
@@ -344,7 +361,9 @@ theorem scale_mono_target (law : Rat → Rat) (v : Rat) (c t1 t2 : Interval) (hv
 /-- **Why the root.** With IID returns, `n` periods have mean excess `n·(m − rf)` and deviation
 `√n·σ`; the ratio of those is the one-period ratio times `√n`. For any `law` that is a root at `n`
 (`law n · law n = n`, `law n ≠ 0`): `calculate` on the `n`-period quantities equals the one-period
-value times `law n` — which is what `scale` multiplies by (`scale_value`). -/
+value times `law n` — which is what `scale` multiplies by (`scale_value`). A statement about the
+IDEAL root: `hroot` has no rational solution at a non-square `n`
+(`sqrtApprox_not_exact_root_252`). -/
 theorem sharpe_scaling_is_iid_consistent (law : Rat → Rat) (n rf m σ : Rat) (p q : Interval)
     (hroot : law n * law n = n) (hl : law n ≠ 0) (hσ : σ ≠ 0) :
     (SharpeRatio.calculate (rf * n) (m * n) (σ * law n) q).value =
@@ -517,7 +536,11 @@ holds: the summed PnL; and for each of the four metrics `calculate` — i.e. (by
 quotient / convention — of the whole-dataset mean return, the whole-dataset population standard
 deviation of all returns (Sharpe) resp. of the negative returns (Sortino), the maximum drawdown of
 the cumulative PnL curve (Calmar), over the trading period `max(now − start, 1 s)`, then `scale`d to
-the requested interval; and the drawdown report of C18. -/
+the requested interval; and the drawdown report of C18.
+True of the total function `sheetOf` for every history; on a history with a zero-cost position the
+code panics instead (`sheet_panics_iff`), and the statement about what the code REPORTS is
+`sheet_checked_refines` (§7). The "maximum drawdown" is C18's, which mirrors the code on curves without
+a positive peak: see §9 for what that means for Calmar. -/
 theorem sheet_refines (f : Rat → Rat) (t0 : Int) (ps : List Exit) (rf : Rat) (iv : Interval) :
     let sh := sheetOf f t0 ps rf iv
     let period := specTradingPeriod t0 ps
@@ -581,7 +604,8 @@ theorem sheet_ror_value (f : Rat → Rat) (t0 : Int) (ps : List Exit) (rf : Rat)
   simp only [specMetrics, Ext.toDecimal]
   exact ror_scale_linear _ (tradingPeriod_secs_ne_zero t0 ps) hfit
 
-/-- Win rate and profit factor of the full generator are the ones C16 specifies. -/
+/-- Win rate and profit factor of the full generator are the ones C16 specifies (of `sheetOf`; guarded
+form in `sheet_checked_refines`, the excluded point in `zero_cost_exit_model_continues`). -/
 theorem sheet_win_rate_profit_factor (f : Rat → Rat) (t0 : Int) (ps : List Exit) (rf : Rat)
     (iv : Interval) :
     (sheetOf f t0 ps rf iv).winRate = TearSheet.specWinRate (ps.map (·.closed)) ∧
@@ -695,6 +719,328 @@ example : (sheetOf sqrtApprox 0 oneLoss 0 .annual365).sortinoRatio.value = decim
     (sheetOf sqrtApprox 0 oneLoss 0 .annual365).pnlReturn.value < 0 := by decide +kernel
 
 end NonVacuity
+
+/-! ## 7. Where the code panics: the checked tear sheet
+
+`sheetOf` (§6) is a total function: on a closed position with a zero cost of investment
+(`price_entry_average * quantity_abs_max = 0`) it goes on with `pnl / 0 = 0`. The code panics there
+(`calculate_pnl_return`, a plain `Decimal` division). The theorems of §6 are true of `sheetOf` for
+every history, but on such a history they do not describe anything the code reports.
+`sheetChecked` is the function with the panic explicit (`none`); it is what the drivers run. -/
+
+/-- `TearSheetGenerator::init(t0)`, one `update_from_position` per element, `generate(rf, iv)` —
+`none` when one of the updates panics. -/
+def sheetChecked (f : Rat → Rat) (t0 : Int) (ps : List Exit) (rf : Rat) (iv : Interval) :
+    Option Sheet :=
+  (Gen.runChecked f (Gen.init t0) ps).map fun g => (g.generate f rf iv).2
+
+/-- The cost of investment of a closed position: the divisor of `calculate_pnl_return`. -/
+def costOf (p : Exit) : Rat := p.closed.priceEntryAverage * p.closed.quantityAbsMax
+
+/-- The checked function is the unchecked one guarded by "no position of the history panics". -/
+theorem sheetChecked_eq (f : Rat → Rat) (t0 : Int) (ps : List Exit) (rf : Rat) (iv : Interval) :
+    sheetChecked f t0 ps rf iv =
+      if ps.any Exit.panics then none else some (sheetOf f t0 ps rf iv) := by
+  rw [sheetChecked, runChecked_eq]
+  split <;> rfl
+
+/-- **Exactly when the code panics**: some closed position of the history has a zero cost of
+investment (zero average entry price or zero maximum quantity). -/
+theorem sheet_panics_iff (f : Rat → Rat) (t0 : Int) (ps : List Exit) (rf : Rat) (iv : Interval) :
+    sheetChecked f t0 ps rf iv = none ↔ ∃ p ∈ ps, costOf p = 0 := by
+  rw [sheetChecked, Option.map_eq_none_iff, runChecked_none_iff]
+  constructor
+  · rintro ⟨p, hp, h⟩; exact ⟨p, hp, (Exit.panics_iff p).mp h⟩
+  · rintro ⟨p, hp, h⟩; exact ⟨p, hp, (Exit.panics_iff p).mpr h⟩
+
+/-- … i.e. a factor of the cost is zero. -/
+theorem cost_zero_iff (p : Exit) :
+    costOf p = 0 ↔ p.closed.priceEntryAverage = 0 ∨ p.closed.quantityAbsMax = 0 := Rat.mul_eq_zero
+
+/-- The same for any sequence of `update_from_position` / `generate` calls (what the model driver
+folds): it panics iff one of the positions has a zero cost; otherwise it is `Gen.exec`. -/
+theorem exec_panics_iff (f : Rat → Rat) (g : Gen) (steps : List Step) :
+    (Gen.execChecked f g steps = none ↔ ∃ p ∈ positionsOf steps, costOf p = 0) ∧
+    (∀ g', Gen.execChecked f g steps = some g' → g' = Gen.exec f g steps) := by
+  rw [execChecked_eq]
+  by_cases h : (positionsOf steps).any Exit.panics = true
+  · rw [if_pos h]
+    refine ⟨⟨fun _ => ?_, fun _ => rfl⟩, fun g' hg => by cases hg⟩
+    obtain ⟨p, hp, hh⟩ := List.any_eq_true.mp h
+    exact ⟨p, hp, (Exit.panics_iff p).mp hh⟩
+  · rw [if_neg h]
+    refine ⟨⟨fun h' => (by cases h'), ?_⟩, fun g' hg => (by cases hg; rfl)⟩
+    rintro ⟨p, hp, hh⟩
+    exact absurd (List.any_eq_true.mpr ⟨p, hp, (Exit.panics_iff p).mpr hh⟩) h
+
+/-- **What the code reports, when it reports.** If the checked function returns a sheet, then no
+position had a zero cost, every return the statistics were fed is a genuine quotient
+(`retOf p · cost = pnl` with `cost ≠ 0` — no `x / 0` anywhere), and the sheet is the one all theorems
+of §6 speak about: the ten fields of `sheet_refines` and `sheet_win_rate_profit_factor`. -/
+theorem sheet_checked_refines (f : Rat → Rat) (t0 : Int) (ps : List Exit) (rf : Rat) (iv : Interval)
+    (sh : Sheet) (h : sheetChecked f t0 ps rf iv = some sh) :
+    (∀ p ∈ ps, costOf p ≠ 0 ∧ retOf p * costOf p = p.closed.pnlRealised) ∧
+    sh = sheetOf f t0 ps rf iv ∧
+    (let period := specTradingPeriod t0 ps
+     let m := specMetrics f rf ps (maxDrawdownOf ps)
+     sh.pnl = TearSheet.specPnl (ps.map (·.closed)) ∧
+     sh.pnlReturn = RateOfReturn.scale ⟨m.pnlReturn.toDecimal, period⟩ iv ∧
+     sh.sharpeRatio = SharpeRatio.scale f ⟨m.sharpe.toDecimal, period⟩ iv ∧
+     sh.sortinoRatio = SortinoRatio.scale f ⟨m.sortino.toDecimal, period⟩ iv ∧
+     sh.calmarRatio = CalmarRatio.scale f ⟨m.calmar.toDecimal, period⟩ iv ∧
+     sh.drawdowns = ⟨(Drawdown.decompose (specCurve ps)).2,
+       Drawdown.specMean (Drawdown.reported (specCurve ps)),
+       Drawdown.specMax (Drawdown.reported (specCurve ps))⟩ ∧
+     sh.winRate = TearSheet.specWinRate (ps.map (·.closed)) ∧
+     sh.profitFactor = (TearSheet.specProfitFactor (ps.map (·.closed))).toOption) := by
+  have hnone : ¬ sheetChecked f t0 ps rf iv = none := by rw [h]; simp
+  rw [sheet_panics_iff] at hnone
+  have hcost : ∀ p ∈ ps, costOf p ≠ 0 := fun p hp hz => hnone ⟨p, hp, hz⟩
+  have hany : ps.any Exit.panics = false := by
+    apply Bool.eq_false_iff.mpr
+    intro ht
+    obtain ⟨p, hp, hh⟩ := List.any_eq_true.mp ht
+    exact hcost p hp ((Exit.panics_iff p).mp hh)
+  rw [sheetChecked_eq, hany] at h
+  simp only [Bool.false_eq_true, if_false, Option.some.injEq] at h
+  subst h
+  refine ⟨fun p hp => ⟨hcost p hp, ?_⟩, rfl, ?_⟩
+  · exact Rat.div_mul_cancel (hcost p hp)
+  · obtain ⟨h1, h2, h3, h4, h5, h6⟩ := sheet_refines f t0 ps rf iv
+    obtain ⟨w1, w2⟩ := sheet_win_rate_profit_factor f t0 ps rf iv
+    exact ⟨h1, h2, h3, h4, h5, h6, w1, w2⟩
+
+/-- the excluded point: one closed position with PnL 5 bought at an average price of 0 -/
+def zeroCostExit : Exit := ⟨1000, ⟨5, 0, 1⟩⟩
+
+/-- **Witness at the excluded point.** On `[zeroCostExit]` the unchecked model goes on — the return is
+`5 / 0 = 0`, the position is not a loss, the win rate is `some 1`, the rate of return `0`, whatever
+the root function is — where the code panics (`pos 1000 5 0 1`: the harness prints `panic`); the
+checked function says so. -/
+theorem zero_cost_exit_model_continues (f : Rat → Rat) (t0 : Int) (rf : Rat) (iv : Interval) :
+    retOf zeroCostExit = 0 ∧
+    (sheetOf f t0 [zeroCostExit] rf iv).winRate = some 1 ∧
+    (sheetOf f t0 [zeroCostExit] rf iv).pnl = 5 ∧
+    (sheetOf f t0 [zeroCostExit] rf iv).pnlReturn.value = 0 ∧
+    zeroCostExit.panics = true ∧
+    sheetChecked f t0 [zeroCostExit] rf iv = none := by
+  obtain ⟨h1, h2, _⟩ := sheet_refines f t0 [zeroCostExit] rf iv
+  obtain ⟨w1, _⟩ := sheet_win_rate_profit_factor f t0 [zeroCostExit] rf iv
+  refine ⟨by decide +kernel, ?_, ?_, ?_, by decide +kernel, ?_⟩
+  · rw [w1]; decide +kernel
+  · rw [h1]; decide +kernel
+  · rw [h2]
+    have e : (specMetrics f rf [zeroCostExit] (maxDrawdownOf [zeroCostExit])).pnlReturn.toDecimal = 0 := by
+      simp only [specMetrics, Ext.toDecimal]; decide +kernel
+    rw [e]; exact scale_zero id _ iv
+  · rw [sheet_panics_iff]; exact ⟨zeroCostExit, by simp, by decide +kernel⟩
+
+/-! ## 8. The ideal root and the root that is computed
+
+`scale_scale`, `scale_round_trip` (§3) and `sharpe_scaling_is_iid_consistent` need `law` to be
+multiplicative resp. an exact root at the factors involved. They are laws of the IDEAL square root
+(and of the identity, i.e. of `RateOfReturn`): no rational-valued function is an exact root at a
+non-square factor such as 252, and neither `Decimal::sqrt` nor the drivers' `sqrtApprox` is
+multiplicative at `Daily ↔ Annual252`. For an arbitrary `law` this section states what two
+successive `scale` calls compute, bounds the round-trip error for every `law` that is a root up to
+`ε` from below, instantiates the bound for the drivers' root, and records the counterexamples. -/
+
+/-- **Scale then scale, no assumption on the law**: `A → B → C` multiplies by
+`law (B/A) · law (C/B)` (both products fitting). -/
+theorem scale_scale_value (law : Rat → Rat) (v : Rat) (a b c : Interval)
+    (hfit1 : InRange (v * law (periods a b)))
+    (hfit2 : InRange (v * law (periods a b) * law (periods b c))) :
+    (Metric.scaleWith law ⟨v, a⟩ b).scaleWith law c =
+      ⟨v * law (periods a b) * law (periods b c), c⟩ := by
+  have hv : ((Metric.scaleWith law ⟨v, a⟩ b).scaleWith law c).value =
+      v * law (periods a b) * law (periods b c) := by
+    rw [scaleWith_value, scaleWith_value, scaleWith_interval]
+    simp only
+    rw [scaleVal_eq hfit1, scaleVal_eq hfit2]
+  have hi : ((Metric.scaleWith law ⟨v, a⟩ b).scaleWith law c).interval = c := rfl
+  generalize (Metric.scaleWith law ⟨v, a⟩ b).scaleWith law c = m at hv hi
+  cases m; simp_all
+
+/-- `law` approximates the square root of `x` from below within `ε`:
+`0 ≤ law x`, `(law x)² ≤ x < (law x + ε)²`. (`Decimal::sqrt` and the drivers' `sqrtApprox` are of
+this kind; the ideal root is the case `ε = 0`, which no rational function meets at a non-square.) -/
+def RootWithin (law : Rat → Rat) (ε x : Rat) : Prop :=
+  0 ≤ law x ∧ law x * law x ≤ x ∧ x < (law x + ε) * (law x + ε)
+
+/-- **Round trip with an approximate root.** For every `law` that is a root within `ε` at the two
+reciprocal factors, `A → B → A` returns `v · law(B/A) · law(A/B)`; that product of roots lies in
+`(1 − ε·(law(B/A) + law(A/B) + ε), 1]`, so the round trip never increases `|v|` and deviates from `v`
+by at most `|v| · ε · (law(B/A) + law(A/B) + ε)`. -/
+theorem scale_round_trip_error (law : Rat → Rat) (ε : Rat) (hε : 0 ≤ ε) (v : Rat) {a b : Interval}
+    (ha : a.secs ≠ 0) (hb : b.secs ≠ 0)
+    (hr1 : RootWithin law ε (periods a b)) (hr2 : RootWithin law ε (periods b a))
+    (hfit : InRange (v * law (periods a b))) (hv : InRange v) :
+    let k := law (periods a b) * law (periods b a)
+    (Metric.scaleWith law ⟨v, a⟩ b).scaleWith law a = ⟨v * k, a⟩ ∧
+    k ≤ 1 ∧ 1 - ε * (law (periods a b) + law (periods b a) + ε) < k ∧
+    (v * k - v).abs ≤ v.abs * (ε * (law (periods a b) + law (periods b a) + ε)) := by
+  obtain ⟨p1, p2, p3⟩ := hr1
+  obtain ⟨q1, q2, q3⟩ := hr2
+  obtain ⟨k1, k2⟩ := root_product_bounds p1 q1 hε p2 q2 p3 q3 (periods_inv ha hb)
+  have k0 : 0 ≤ law (periods a b) * law (periods b a) := Rat.mul_nonneg p1 q1
+  have hfit2 : InRange (v * law (periods a b) * law (periods b a)) := by
+    unfold InRange at hv ⊢
+    rw [Rat.mul_assoc, abs_mul', Rat.abs_of_nonneg k0]
+    have := Rat.mul_le_mul_of_nonneg_left k1 (abs_nonneg' v)
+    rw [Rat.mul_one] at this
+    exact Rat.le_trans this hv
+  refine ⟨?_, k1, k2, ?_⟩
+  · rw [scale_scale_value law v a b a hfit hfit2, Rat.mul_assoc]
+  · have e : v * (law (periods a b) * law (periods b a)) - v =
+        v * (law (periods a b) * law (periods b a) - 1) := by grind
+    rw [e, abs_mul']
+    apply Rat.mul_le_mul_of_nonneg_left _ (abs_nonneg' v)
+    rw [abs_le_iff]
+    constructor <;> grind
+
+/-- The drivers' root (`DataSet.sqrtApprox`, √ truncated to 30 places; error bound
+`DataSet.sqrtApprox_spec`) is a root within `10⁻³⁰` at every non-negative argument … -/
+theorem sqrtApprox_root_within (x : Rat) (hx : 0 ≤ x) :
+    RootWithin DataSet.sqrtApprox (1 / (DataSet.sqrtScale : Rat)) x :=
+  DataSet.sqrtApprox_spec x hx
+
+/-- … hence the round trip through any interval, with the root the drivers run, deviates from `v` by
+at most `|v| · 10⁻³⁰ · (√(B/A) + √(A/B) + 10⁻³⁰)`. -/
+theorem sqrtApprox_round_trip_error (v : Rat) {a b : Interval} (ha : a.secs ≠ 0) (hb : b.secs ≠ 0)
+    (hfit : InRange (v * DataSet.sqrtApprox (periods a b))) (hv : InRange v) :
+    let ε : Rat := 1 / (DataSet.sqrtScale : Rat)
+    let k := DataSet.sqrtApprox (periods a b) * DataSet.sqrtApprox (periods b a)
+    (Metric.scaleWith DataSet.sqrtApprox ⟨v, a⟩ b).scaleWith DataSet.sqrtApprox a = ⟨v * k, a⟩ ∧
+    (v * k - v).abs ≤
+      v.abs * (ε * (DataSet.sqrtApprox (periods a b) + DataSet.sqrtApprox (periods b a) + ε)) := by
+  have hε : (0 : Rat) ≤ 1 / (DataSet.sqrtScale : Rat) := by
+    have := DataSet.sqrtScale_pos
+    exact div_nonneg (by decide) (by grind)
+  obtain ⟨h1, _, _, h4⟩ := scale_round_trip_error DataSet.sqrtApprox _ hε v ha hb
+    (sqrtApprox_root_within _ (periods_nonneg a b)) (sqrtApprox_root_within _ (periods_nonneg b a))
+    hfit hv
+  exact ⟨h1, h4⟩
+
+/-- **Counterexample to multiplicativity** (the hypothesis `hmul` of `scale_scale` /
+`scale_round_trip`) for the drivers' root on the named intervals: `Daily → Annual252 → Daily` and
+`Daily → Annual252 → Annual365`. -/
+theorem sqrtApprox_not_multiplicative_D_A252 :
+    sqrtApprox (periods .daily .annual252 * periods .annual252 .daily) ≠
+      sqrtApprox (periods .daily .annual252) * sqrtApprox (periods .annual252 .daily) ∧
+    sqrtApprox (periods .daily .annual252 * periods .annual252 .annual365) ≠
+      sqrtApprox (periods .daily .annual252) * sqrtApprox (periods .annual252 .annual365) := by
+  decide +kernel
+
+/-- **Counterexample to the exact-root hypothesis** of `sharpe_scaling_is_iid_consistent`: the
+drivers' root at 252 squares to strictly less than 252. -/
+theorem sqrtApprox_not_exact_root_252 :
+    sqrtApprox 252 * sqrtApprox 252 ≠ 252 ∧ sqrtApprox 252 * sqrtApprox 252 < 252 := by
+  decide +kernel
+
+/-- **The round trip deviates**: `⟨0.05, Daily⟩ → Annual252 → Daily` with the drivers' root is not
+`⟨0.05, Daily⟩`; it is below it, by less than `10⁻³¹` (cf. `sqrtApprox_round_trip_error`). -/
+theorem round_trip_deviates_witness :
+    let rt := (Metric.scaleWith sqrtApprox ⟨5 / 100, .daily⟩ .annual252).scaleWith sqrtApprox .daily
+    rt ≠ ⟨5 / 100, .daily⟩ ∧ rt.interval = .daily ∧ rt.value < 5 / 100 ∧
+    5 / 100 - rt.value < 1 / 10 ^ 31 := by
+  decide +kernel
+
+/-! ## 9. Calmar on a history that never shows a profit
+
+C18 documents drawdowns for curves with positive peaks. A cumulative-PnL curve that never rises above
+zero has no such peak: the drawdown generators (and C18's decomposition, which mirrors them there)
+report nothing, `generate` falls back to `MaxDrawdown(Drawdown::default())` = 0, `CalmarRatio::calculate`
+takes its zero-risk branch, and for a losing history (`mean < risk-free`) returns `Decimal::MIN` —
+which `scale` turns into `Decimal::MAX` as soon as the factor exceeds 1 (§4). -/
+
+/-- All positions of `ps` closed without a profit. -/
+def NoWin (ps : List Exit) : Prop := ∀ p ∈ ps, p.closed.pnlRealised ≤ 0
+
+instance (ps : List Exit) : Decidable (NoWin ps) :=
+  inferInstanceAs (Decidable (∀ p ∈ ps, p.closed.pnlRealised ≤ 0))
+
+/-- A history whose cumulative PnL is never positive has no drawdown at all in the sheet, and its
+"maximum drawdown of the cumulative PnL curve" is 0 — however much was lost. -/
+theorem never_positive_curve_reports_no_drawdown (f : Rat → Rat) (t0 : Int) (ps : List Exit) (rf : Rat)
+    (iv : Interval) (hcurve : ∀ q ∈ specCurve ps, q.v ≤ 0) :
+    (sheetOf f t0 ps rf iv).drawdowns = ⟨none, none, none⟩ ∧ maxDrawdownOf ps = 0 := by
+  have hd := decompose_nonpos _ (specCurve ps) (Nat.le_refl _) hcurve
+  have hr : Drawdown.reported (specCurve ps) = [] := by simp [Drawdown.reported, hd]
+  constructor
+  · rw [(sheet_refines f t0 ps rf iv).2.2.2.2.2, hd, hr]; rfl
+  · simp [maxDrawdownOf, hr, Drawdown.specMax]
+
+/-- In particular a history without a single winning position. -/
+theorem no_win_curve_never_positive (ps : List Exit) (h : NoWin ps) : ∀ q ∈ specCurve ps, q.v ≤ 0 :=
+  specCurve_nonpos_of_no_win ps h
+
+/-- **Strictly losing history ⇒ Calmar = `Decimal::MAX`** (the counterpart of
+`sheet_sortino_very_bad_is_max`). Whenever the cumulative PnL never rises above zero, the mean return
+is below the risk-free return and the requested interval is longer than the trading period by a factor
+whose root exceeds 1, the sheet reports `calmar_ratio = Decimal::MAX` — the value documented for
+"very good" — while the documented convention for that input is `−∞` (`Decimal::MIN`). -/
+theorem sheet_calmar_strictly_losing_is_max (f : Rat → Rat) (t0 : Int) (ps : List Exit) (rf : Rat)
+    (iv : Interval) (hcurve : ∀ q ∈ specCurve ps, q.v ≤ 0)
+    (hmean : DataSet.specMean (returns ps) < rf)
+    (hfac : 1 < f (periods (specTradingPeriod t0 ps) iv)) :
+    (sheetOf f t0 ps rf iv).calmarRatio.value = decimalMax ∧
+    (sheetOf f t0 ps rf iv).drawdowns.max = none ∧
+    (specMetrics f rf ps (maxDrawdownOf ps)).calmar = .negInf := by
+  obtain ⟨hdd, hmax⟩ := never_positive_curve_reports_no_drawdown f t0 ps rf iv hcurve
+  have h := (sheet_refines f t0 ps rf iv).2.2.2.2.1
+  have hv := very_bad_reported_as_very_good f rf (DataSet.specMean (returns ps))
+    (specTradingPeriod t0 ps) iv hmean hfac
+  have e : (specMetrics f rf ps (maxDrawdownOf ps)).calmar = .negInf := by
+    simp only [specMetrics, hmax]; exact hv.2.2.2
+  refine ⟨?_, by rw [hdd], e⟩
+  rw [h, e]
+  exact scale_min_becomes_max f _ _ hfac
+
+/-- … and with a factor in `[0, 1]` (a target interval not longer than the trading period) the same
+history reports the finite number `Decimal::MIN · factor`. -/
+theorem sheet_calmar_strictly_losing_shrinks (f : Rat → Rat) (t0 : Int) (ps : List Exit) (rf : Rat)
+    (iv : Interval) (hcurve : ∀ q ∈ specCurve ps, q.v ≤ 0)
+    (hmean : DataSet.specMean (returns ps) < rf)
+    (h0 : 0 ≤ f (periods (specTradingPeriod t0 ps) iv))
+    (h1 : f (periods (specTradingPeriod t0 ps) iv) ≤ 1) :
+    (sheetOf f t0 ps rf iv).calmarRatio.value =
+      decimalMin * f (periods (specTradingPeriod t0 ps) iv) := by
+  obtain ⟨_, hmax⟩ := never_positive_curve_reports_no_drawdown f t0 ps rf iv hcurve
+  have h := (sheet_refines f t0 ps rf iv).2.2.2.2.1
+  have hneg : ¬ 0 < DataSet.specMean (returns ps) - rf := by grind
+  have hlt : DataSet.specMean (returns ps) - rf < 0 := by grind
+  have e : (specMetrics f rf ps (maxDrawdownOf ps)).calmar = .negInf := by
+    simp [specMetrics, hmax, specCalmar, specRatio, hneg, hlt]
+  rw [h, e]
+  exact scale_min_shrinks f _ _ h0 h1
+
+/-- the reviewer's history: −5 % after one day, −10 % after two -/
+def allLoss : List Exit := [⟨86400000, ⟨-5, 100, 1⟩⟩, ⟨172800000, ⟨-10, 100, 1⟩⟩]
+
+/-- **Witness** (corpus/C16M `strictly-losing-calmar-max`; the harness prints `calmar MAX`,
+`ddmax none`): two losing positions, annualised, with the root the drivers run. PnL −15, rate of
+return negative, no drawdown reported, Calmar ratio `Decimal::MAX`. -/
+theorem calmar_strictly_losing_witness :
+    NoWin allLoss ∧ maxDrawdownOf allLoss = 0 ∧
+    (sheetOf sqrtApprox 0 allLoss 0 .annual365).pnl = -15 ∧
+    (sheetOf sqrtApprox 0 allLoss 0 .annual365).pnlReturn.value < 0 ∧
+    (sheetOf sqrtApprox 0 allLoss 0 .annual365).drawdowns = ⟨none, none, none⟩ ∧
+    (sheetOf sqrtApprox 0 allLoss 0 .annual365).calmarRatio.value = decimalMax ∧
+    sheetChecked sqrtApprox 0 allLoss 0 .annual365 = some (sheetOf sqrtApprox 0 allLoss 0 .annual365) := by
+  refine ⟨by decide +kernel, by decide +kernel, by decide +kernel, by decide +kernel,
+    by decide +kernel, by decide +kernel, ?_⟩
+  rw [sheetChecked_eq, if_neg (by decide +kernel)]
+
+/-- **Where the `Decimal` range ends** (an examined boundary, not modelled: DESIGN §3). `calculate`
+computes `mean − risk_free` with a plain `Decimal` subtraction, which panics on overflow
+(`calc sharpe -79228162514264337593543950335 79228162514264337593543950335 1 D`: the harness prints
+`panic`, "Subtraction overflowed"); the exact model returns `2 · Decimal::MAX`, a value no `Decimal`
+holds. The same class: `pnl_raw += pnl_realised` beyond the range, quotients beyond `Decimal::MAX` in
+`checked_div(..).unwrap()`. The generators stay inside the range (`props/C16M.py` ASSUMPTIONS). -/
+theorem calculate_excess_overflow_witness :
+    (SharpeRatio.calculate decimalMin decimalMax 1 .daily).value = 2 * decimalMax ∧
+    ¬ InRange (SharpeRatio.calculate decimalMin decimalMax 1 .daily).value := by
+  decide +kernel
 
 /-- **Tie to the source by translation.** `SharpeRatio` / `SortinoRatio` / `CalmarRatio` /
 `RateOfReturn` `::{calculate, scale}`, the trait `TimeInterval` (as the record of its method
